@@ -311,4 +311,131 @@ theorem hasNode_flatten {t : RawTree} (w : WF t) (hnode : HasNode t) : HasNode t
   hasNode_of_wfb (LevelLoop.wfb_flatten (wfb_of_WF w hnode) (ll := t.hierarchy.getLast w.hNe)
     (by simp [RawTree.leafLevel, List.getLast?_eq_some_getLast w.hNe]))
 
+/-! ### from the validator's verdict itself -/
+
+/-- `validate t = .ok ()` + distinct level names + dict-key uniqueness is `WF`
+(the hierarchy of an accepted tree is non-empty) -/
+theorem WF_of_validate {t : RawTree} (hv : t.validate = .ok ()) (hN : t.hierarchy.Nodup)
+    (d : DictOK t) : WF t :=
+  ⟨hv, hN, hierarchy_ne_nil_of_validate hv, d⟩
+
+theorem wfb_of_validate {t : RawTree} (hv : t.validate = .ok ()) (hN : t.hierarchy.Nodup)
+    (d : DictOK t) (hnode : HasNode t) : LevelLoop.wfb t = true :=
+  wfb_of_WF (WF_of_validate hv hN d) hnode
+
+/-! ### the tree of the run (`runTree`: `drop_level` / `flatten`) stays well formed -/
+
+theorem split_of_mem_ne_getLast {l : Level} {h : List Level} (hm : l ∈ h)
+    (hl : h.getLast? ≠ some l) : ∃ pre cl post, h = pre ++ l :: cl :: post := by
+  obtain ⟨pre, rest, rfl⟩ := List.append_of_mem hm
+  cases rest with
+  | nil => exact absurd (by simp) hl
+  | cons cl post => exact ⟨pre, cl, post, rfl⟩
+
+/-- a successful `drop_level` (without `allow_leaf`) dropped a non-leaf level -/
+theorem dropLevel_not_leaf {t t' : RawTree} {l : Level} (h : t.dropLevel l = .ok t') :
+    t.hierarchy.getLast? ≠ some l := by
+  unfold RawTree.dropLevel at h
+  cases hraw : t.dropLevelRaw l with
+  | error e => rw [hraw] at h; cases h
+  | ok t1 =>
+    unfold RawTree.dropLevelRaw at hraw
+    split at hraw
+    · cases hraw
+    · cases hidx : t.levelIdx l with
+      | none => simp only [hidx] at hraw; cases hraw
+      | some idx =>
+        simp only [hidx] at hraw
+        split at hraw
+        · cases hraw
+        · rename_i hleaf
+          intro he
+          apply hleaf
+          simp [RawTree.leafLevel, he]
+
+/-- whatever `drop_level` / `flatten` the configuration asks for, the tree the
+run votes on inherits `wfb` from the stored tree -/
+theorem wfb_runTree {t0 t : RawTree} {cfg : LevelLoop.Config} (h0 : LevelLoop.wfb t0 = true)
+    (hrun : LevelLoop.runTree t0 cfg = .ok t) : LevelLoop.wfb t = true := by
+  have hflat : ∀ t1, LevelLoop.wfb t1 = true → LevelLoop.wfb (if cfg.flatten then t1.flatten else t1) = true := by
+    intro t1 h1
+    split
+    · by_cases hne : t1.hierarchy = []
+      · -- with an empty hierarchy `flatten` is the identity
+        have : t1.flatten = t1 := by simp [RawTree.flatten, RawTree.leafLevel, hne]
+        rw [this]; exact h1
+      · exact LevelLoop.wfb_flatten h1 (ll := t1.hierarchy.getLast hne)
+          (by simp [RawTree.leafLevel, List.getLast?_eq_some_getLast hne])
+    · exact h1
+  unfold LevelLoop.runTree at hrun
+  cases hd : cfg.dropLevel with
+  | none =>
+    simp only [hd, Except.ok.injEq] at hrun
+    subst hrun
+    exact hflat t0 h0
+  | some l =>
+    simp only [hd] at hrun
+    by_cases hc : t0.hierarchy.contains l = true
+    · simp only [hc, if_true] at hrun
+      cases hdl : t0.dropLevel l with
+      | error e => simp only [hdl] at hrun; cases hrun
+      | ok t1 =>
+        simp only [hdl, Except.ok.injEq] at hrun
+        subst hrun
+        obtain ⟨hm, _⟩ := LevelLoop.dropLevel_hierarchy hdl
+        obtain ⟨pre, cl, post, hs⟩ := split_of_mem_ne_getLast hm (dropLevel_not_leaf hdl)
+        exact hflat t1 (LevelLoop.wfb_dropLevel h0 hdl hs)
+    · simp only [hc, Bool.false_eq_true, if_false, Except.ok.injEq] at hrun
+      subst hrun
+      exact hflat t0 h0
+
+/-! ### the level loop's root-to-leaf paths are the tree model's paths -/
+
+theorem linkedFrom_getElem (t : RawTree) : ∀ (A : List (Level × Node)) (p : LevelLoop.Parent),
+    LevelLoop.LinkedFrom t p A → ∀ j (hj : j + 1 < A.length),
+      t.childToParent A[j+1].1 A[j+1].2 = some (A[j]'(by omega)).2
+  | [], _, _, j, hj => by simp at hj
+  | (l, n) :: rest, p, h, j, hj => by
+    have h' : LevelLoop.LinkedFrom t (some (l, n)) rest := by
+      cases p with
+      | none => exact h
+      | some q => exact h.2
+    cases j with
+    | zero =>
+      cases rest with
+      | nil => simp at hj
+      | cons x rest' => exact h'.1
+    | succ j =>
+      have := linkedFrom_getElem t rest (some (l, n)) h' j (by simpa using hj)
+      simpa using this
+
+/-- C01's `IsRootToLeafPath` (one node per level, consecutive ones related by
+`child_to_parent`) is C10's `IsPath` (each node a LISTED CHILD of the previous
+one) on a `WF` tree -/
+theorem isPath_of_rootToLeaf {t : RawTree} (w : WF t) {es : List (Level × LevelLoop.Entry)}
+    (h : LevelLoop.IsRootToLeafPath t es) : IsPath t (es.map (·.2.assignment)) := by
+  have s := strict_of_validate w.valid
+  obtain ⟨hlv, hnodes, hlink⟩ := h
+  have hlen : es.length = t.hierarchy.length := by
+    have := congrArg List.length hlv; simpa using this
+  have hlevel : ∀ j (hj : j < es.length), es[j].1 = t.hierarchy[j]'(by omega) := by
+    intro j hj
+    have : (es.map (·.1))[j]'(by simpa using hj) = t.hierarchy[j]'(by omega) := by
+      simp only [hlv]
+    simpa using this
+  refine ⟨by simpa using hlen, ?_, ?_⟩
+  · intro j hj hj'
+    have hj0 : j < es.length := by simpa using hj
+    have := hnodes es[j] (List.getElem_mem hj0)
+    rw [hlevel j hj0] at this
+    simpa using this
+  · intro j hj hj'
+    have hj0 : j + 1 < es.length := by simpa using hj
+    have hA : j + 1 < (LevelLoop.assignments es).length := by
+      simpa [LevelLoop.assignments] using hj0
+    have hc := linkedFrom_getElem t _ none hlink j hA
+    simp only [LevelLoop.assignments, List.getElem_map] at hc
+    rw [hlevel (j+1) hj0, childToParent_eq_some_iff s w.hNodup hj', isChild_iff w.dict] at hc
+    simpa using hc.2
+
 end CTM.Bridge
